@@ -23,12 +23,12 @@ def is_sleep0(a: ast.Await) -> bool:
 
 
 def is_bounded_pause(a: ast.Await) -> bool:
-    """`await asyncio.wait_for(<awaitable>, timeout=<small numeric constant>)`: whatever is waited for, the caller continues after at most that long (a pause with an early
-    wake-up, like sleep(t)); not a wait that can deadlock."""
+    """`await asyncio.wait_for(<awaitable>, timeout=<numeric constant of at most 50 ms>)`: whatever is waited for, the caller continues after at most that long (a pause with an
+    early wake-up, negligible next to any handler timeout); not a wait that can deadlock.  Longer waits hold the processing lock of every bus for their whole duration."""
     v = a.value
     if isinstance(v, ast.Call) and U(v.func) in ('asyncio.wait_for', 'wait_for'):
         to = q.kw(v, 'timeout') or (v.args[1] if len(v.args) > 1 else None)
-        return isinstance(to, ast.Constant) and isinstance(to.value, (int, float)) and not isinstance(to.value, bool) and 0 <= to.value <= 1 \
+        return isinstance(to, ast.Constant) and isinstance(to.value, (int, float)) and not isinstance(to.value, bool) and 0 <= to.value <= 0.05 \
             and v.args and not (isinstance(v.args[0], (ast.Name, ast.Attribute)))  # (wait_for on a task object waits for its cancellation to finish: not bounded)
     return False
 
